@@ -32,7 +32,7 @@ class Table:
         if cls.startswith("LangString"):
             return "str"
         if cls == "ValueList":
-            return "set:node:ValueReferencePair"
+            return "set1:node:ValueReferencePair"
         if cls == "OperationVariable":
             return "node:SubmodelElement"
         return dict(meta.META[cls])[attr]
@@ -75,7 +75,7 @@ class Table:
             return ["l", [["n", lcls, [tok(k, k == ""), tok(t, t == "")]] for k, t in v.items()]]
         if head == "node":
             return self.to_val(v)
-        if head in ("list", "set"):
+        if head in ("list", "list1", "set", "set1"):
             return ["l", [self.val_of_kind(arg, x) for x in v]]
         if head == "enumset":
             # wire normal form of the levelType dict: the names that are true, in the table's order
@@ -214,8 +214,8 @@ class Table:
             if spec_kind:
                 sk = spec_kind[1:] if spec_kind[0] == "o" else spec_kind
                 head, _, arg = sk.partition(":")
-                unordered = head in ("set", "elems", "enumset", "lss")
-                inner = arg if head in ("list", "set") else None
+                unordered = head in ("set", "set1", "elems", "enumset", "lss")
+                inner = arg if head in ("list", "list1", "set", "set1") else None
             xs = [self.sort_unordered(x, inner) for x in v[1]]
             if unordered:
                 xs = sorted(xs, key=lambda x: json.dumps(x, sort_keys=True))
